@@ -493,6 +493,9 @@ NeverStuck == ~(Quiescent /\ healthy /\ \E c \in CIDS : StuckDirOverRec(st, ipfs
 NeverFullQ == ~(lastRes = "fullq" /\ Quiescent)
 NeverRecoveredUnpin == ~(Quiescent /\ healthy /\ nfail > 0 /\ \E c \in CIDS : st[c] = "none" /\ act.name = "Clean")
 
+NeverUntrackFullPinned == ~(act.name = "Untrack" /\ lastRes = "fullq" /\ ipfs[act.cid] # "none")
+NeverTrackFullUnpinned  == ~(act.name = "Track" /\ lastRes = "fullq" /\ ipfs[act.cid] = "none" /\ Quiescent)
+
 \* branch coverage: violated the first time a (action, branch tag) pair is seen
 \* (run with -workers 1 -continue: one shortest witness per pair, tools/mkwitness.py)
 CoverNew ==
